@@ -788,7 +788,13 @@ class Engine(object):
         result = c.returns.fresh(ctx, 'ret_' + fv.node.name) if c.returns is not None else NONE
         sfr.locals['result'] = result
         for e in c.ensures:
-            ctx.assume(self.eval_spec(ctx, sfr, e))
+            g = self.eval_spec(ctx, sfr, e)
+            if Z.is_false(Z.simp(g)):
+                # vacuity guard: a postcondition that is literally false at a call site would
+                # silently kill the path and "discharge" everything after it
+                raise ContractError('postcondition %r of %s is false at a call site (contract not usable by callers)'
+                                    % (e, c.target))
+            ctx.assume(g)
         ctx.trace.append(('contract', c.target, loc))
         return result
 
